@@ -18,6 +18,7 @@ func checkC07(c *Ctx) {
 	r.Rule("R07.3", "last occurrence wins: the sort applied before de-duplication is a stable sort; its comparator and the de-duplication equality read only Key() (and nil-ness); dedupeSlice overwrites the kept slot with the later element of an equal run and returns the prefix")
 	r.Rule("R07.4", "every level sorted: serializeAttrs is the one member-list emitter, it sorts unconditionally (the switch is a constructor constant true), de-duplicates the sorted slice and ranges over the result; groups recurse into it")
 	r.Rule("R07.5", "nil context: the context handed to the attribute collection is never nil (replaced by context.TODO/Background before use); context values are taken for the logger's registered keys under their string / Stringer key")
+	r.Rule("R10.1", "(shared with C10) a logger's own attribute list is its own: the slice stored into attrs is a fresh slice or append(own attrs, ...), never a caller's slice or another logger's backing array (otherwise a later SetAttrs on one logger rewrites what another one prints)")
 	r.Assume("Key() of the package's own Attr implementations returns the key field; user Stringer keys are user code")
 	for _, tags := range c.Configs([]string{""}, []string{"", "verbose", "hint"}) {
 		p := c.Prog(tags)
@@ -31,6 +32,7 @@ func checkC07(c *Ctx) {
 		}
 		c07Collect(c, p, m)
 		c07Sort(c, p, m)
+		c10Frames(c, p, m)
 	}
 	c.Floor["R07.2"] = 12
 	c.Floor["R07.3"] = 5
